@@ -38,6 +38,11 @@ def pairs(rnd, tier, big=True):
             # identical neighbours: a chunk followed by a copy of itself (a scan working from stale buffers would trust a partial copy)
             adj = [base[0], base[1], base[1], base[2], base[2], base[2]]
             out.append(('adjacent-dup/c%d' % ci, Z.make([base[1]], **cfg).build() if rnd.random() < 0.5 else None, Z.make(adj, **cfg)))
+            # records separated by one-byte chunks; neighbouring records rewritten: missing extents one valid byte apart
+            recs = [FG.text(rnd, rnd.choice([9, 20, 41])) for _ in range(5)]
+            sep = lambda rs: [x for r in rs for x in (r, b';')][:-1]
+            new = list(recs); new[1] = FG.text(rnd, 17); new[2] = FG.text(rnd, 23); new[4] = FG.text(rnd, 8)
+            out.append(('separators/c%d' % ci, Z.make(sep(recs), **cfg).build(), Z.make(sep(new), **cfg)))
             out.append(('reordered/c%d' % ci, Z.make(list(reversed(base)), **cfg).build(), A))
         if ci == 3:
             out.append(('other-dict/c%d' % ci, Z.make(base, zdict=FG.text(rnd, 91), **cfg).build(), Z.make(edit(rnd, base), zdict=zd, **cfg)))
